@@ -95,15 +95,13 @@ Fixpoint wf_node (n : node) : bool :=
   match n with
   | NDir es =>
       forallb (fun kv => name_ok (fst kv)) es && names_nodup (map fst es) &&
-      (fix all (l : list (str * node)) : bool :=
-         match l with [] => true | (_, ch) :: t => wf_node ch && all t end) es
+      forallb (fun kv => match kv with (_, ch) => wf_node ch end) es
   | _ => true
   end.
 
 Fixpoint height (n : node) : nat :=
   match n with
-  | NDir es => S ((fix mx (l : list (str * node)) : nat :=
-                     match l with [] => O | (_, ch) :: t => Nat.max (height ch) (mx t) end) es)
+  | NDir es => S (fold_right (fun kv m => match kv with (_, ch) => Nat.max (height ch) m end) O es)
   | _ => O
   end.
 
